@@ -66,6 +66,16 @@ namespace c16
     return s;
   }
 
+  /// natural magnitude of the terms that are summed up in a Burgers matrix (sum over all entries): the convective terms are built
+  /// from sum_k v_k phi_k resp. sum_k v_k grad phi_k, which may cancel completely (constant field => grad v = 0), so the rounding
+  /// noise of an entry scales with |coefficient| * max|v_k| * G * mass and not with the entry itself.  G = 16*kappa bounds |grad phi|.
+  template<typename DT> inline LD burgers_floor(const BurgersParams& p, LD scale, LD vol, LD vmax, double kappa)
+  {
+    const LD G = 16.0L * (LD)kappa;
+    const LD nat = fabsl(scale) * vol * (fabsl((LD)p.nu) * G * G + fabsl((LD)p.theta) + (fabsl((LD)p.beta) + fabsl((LD)p.frechet_beta)) * vmax * G + fabsl((LD)p.sd_delta) * vmax * G * G);
+    return 64.0L * unit_roundoff<DT>() * nat;
+  }
+
   template<typename DT, typename IT, int dim, typename Space_> void fill_blocked(LAFEM::DenseVectorBlocked<DT, IT, dim>& vec, const Space_& sp, const std::vector<Poly>& ps)
   {
     vec = LAFEM::DenseVectorBlocked<DT, IT, dim>(sp.get_num_dofs()); DT* e = vec.template elements<LAFEM::Perspective::pod>();
@@ -122,6 +132,7 @@ namespace c16
       const Index nd = space.get_num_dofs(); const long n = (long)nd;
       const std::vector<QP> qp = exact_ok ? mesh_qps(rm, 3 * Tag::p * (tens ? dim : 1)) : std::vector<QP>();
       const LD sc = (LD)scale;
+      const LD flo = burgers_floor<DT>(p, sc, mesh_volume(rm), maxabs(flat_of(conv)), kap);
 
       if(sub == 0 || sub == 2)
       {
@@ -139,17 +150,17 @@ namespace c16
         Dn dB = dense_of(B); for(auto& x : dB.a) x *= sc;
         if(sub == 0)
         {
-          check_same<DT>(dA, dB, kap, "BurgersBlockedMatrixAssemblyJob (scaled) vs BurgersAssembler::assemble_matrix");
+          check_same<DT>(dA, dB, kap, "BurgersBlockedMatrixAssemblyJob (scaled) vs BurgersAssembler::assemble_matrix", flo);
           if(p.theta == 0.0 && p.frechet_beta == 0.0)
             for(long i = 0; i < n * dim; ++i) for(int a = 0; a < dim; ++a) { LD s = 0, sa = 0; for(long j = 0; j < n; ++j) { s += dA(i, j * dim + a); sa += fabsl(dA(i, j * dim + a)); }
-              VF_CHECK(fabsl(s) <= tol_of<DT>(kap, std::max(sa, amax)), "Burgers matrix without reaction: row " << i << " applied to the constant field e_" << a << " gives " << (double)s); }
+              VF_CHECK(fabsl(s) <= tol_of<DT>(kap, std::max(sa, amax)) + flo, "Burgers matrix without reaction: row " << i << " applied to the constant field e_" << a << " gives " << (double)s); }
           if(p.beta == 0.0 && p.frechet_beta == 0.0 && p.sd_delta == 0.0)
-            for(long i = 0; i < n * dim; ++i) for(long j = i + 1; j < n * dim; ++j) VF_CHECK(fabsl(dA(i, j) - dA(j, i)) <= tol_of<DT>(kap, amax), "Burgers matrix without convection must be symmetric: A(" << i << "," << j << ")=" << (double)dA(i, j) << " A(" << j << "," << i << ")=" << (double)dA(j, i));
+            for(long i = 0; i < n * dim; ++i) for(long j = i + 1; j < n * dim; ++j) VF_CHECK(fabsl(dA(i, j) - dA(j, i)) <= tol_of<DT>(kap, amax) + flo, "Burgers matrix without convection must be symmetric: A(" << i << "," << j << ")=" << (double)dA(i, j) << " A(" << j << "," << i << ")=" << (double)dA(j, i));
           if(exact_ok)
           {
             const std::vector<LD> us = blocked_vec(space, U), ws = blocked_vec(space, W);
             const LD ex = sc * integrate(qp, [&](const LD* x) { return burgers_integrand(p, dim, V, U, W, x); });
-            const LD got = bil(ws, dA, us); const LD tol = tol_of<DT>(kap, maxabs(us) * maxabs(ws) * SA);
+            const LD got = bil(ws, dA, us); const LD tol = tol_of<DT>(kap, maxabs(us) * maxabs(ws) * SA) + maxabs(us) * maxabs(ws) * flo;
             VF_CHECK(std::isfinite((double)got) && fabsl(got - ex) <= tol, "Burgers matrix: w^T N(v) u = " << (double)got << " but the exact operator value is " << (double)ex << " (tol " << (double)tol << ")");
           }
         }
@@ -171,16 +182,16 @@ namespace c16
           for(long i = 0; i < n * dim; ++i) { LD sa = 0; for(long j = 0; j < n * dim; ++j) { ref[(size_t)i] += dA(i, j) * ps[(size_t)j]; sa += fabsl(dA(i, j) * ps[(size_t)j]); } S = std::max(S, sa); }
           if(p.sd_delta == 0.0)   // classic assemble_vector has no streamline-diffusion term
           {
-            for(long i = 0; i < n * dim; ++i) VF_CHECK(std::isfinite((double)v1[(size_t)i]) && fabsl(v1[(size_t)i] - ref[(size_t)i]) <= tol_of<DT>(kap, std::max(S, (LD)fabsl((LD)pre))), "BurgersAssembler::assemble_vector entry " << i << ": " << (double)v1[(size_t)i] << " vs matrix*primal " << (double)ref[(size_t)i]);
+            for(long i = 0; i < n * dim; ++i) VF_CHECK(std::isfinite((double)v1[(size_t)i]) && fabsl(v1[(size_t)i] - ref[(size_t)i]) <= tol_of<DT>(kap, std::max(S, (LD)fabsl((LD)pre))) + flo * maxabs(ps), "BurgersAssembler::assemble_vector entry " << i << ": " << (double)v1[(size_t)i] << " vs matrix*primal " << (double)ref[(size_t)i]);
           }
-          for(long i = 0; i < n * dim; ++i) VF_CHECK(std::isfinite((double)v2[(size_t)i]) && fabsl(v2[(size_t)i] - ref[(size_t)i]) <= tol_of<DT>(kap, S), "BurgersBlockedVectorAssemblyJob entry " << i << ": " << (double)v2[(size_t)i] << " vs matrix*primal " << (double)ref[(size_t)i]);
+          for(long i = 0; i < n * dim; ++i) VF_CHECK(std::isfinite((double)v2[(size_t)i]) && fabsl(v2[(size_t)i] - ref[(size_t)i]) <= tol_of<DT>(kap, S) + flo * maxabs(ps), "BurgersBlockedVectorAssemblyJob entry " << i << ": " << (double)v2[(size_t)i] << " vs matrix*primal " << (double)ref[(size_t)i]);
           if(exact_ok)
           {
             const std::vector<LD> ws = blocked_vec(space, W);
             const std::vector<Poly>& UU = (conv_kind == 2) ? V : U;
             const LD ex = sc * integrate(qp, [&](const LD* x) { return burgers_integrand(p, dim, V, UU, W, x); });
             LD got = 0; for(size_t i = 0; i < ws.size(); ++i) got += ws[i] * v1[i];
-            const LD tol = tol_of<DT>(kap, maxabs(ws) * maxabs(ps) * SA);
+            const LD tol = tol_of<DT>(kap, maxabs(ws) * maxabs(ps) * SA) + maxabs(ws) * maxabs(ps) * flo;
             VF_CHECK(std::isfinite((double)got) && fabsl(got - ex) <= tol, "Burgers defect vector: w^T r = " << (double)got << " but the exact operator value is " << (double)ex << " (tol " << (double)tol << ")");
           }
         }
@@ -194,17 +205,17 @@ namespace c16
         SMatrix B = A.clone(LAFEM::CloneMode::Layout); B.format();
         { Assembly::BurgersScalarMatrixAssemblyJob<SMatrix, SpaceType, BVector> job(B, conv, space, cubname); p.apply(job); job.set_sd_v_norm(conv); da.assemble(job); }
         Dn dB = dense_of(B); for(auto& x : dB.a) x *= sc;
-        check_same<DT>(dA, dB, kap, "BurgersScalarMatrixAssemblyJob (scaled) vs BurgersAssembler::assemble_scalar_matrix");
+        check_same<DT>(dA, dB, kap, "BurgersScalarMatrixAssemblyJob (scaled) vs BurgersAssembler::assemble_scalar_matrix", flo);
         if(sub == 1)
         {
           if(p.theta == 0.0)
-            for(long i = 0; i < n; ++i) { LD s = 0, sa = 0; for(long j = 0; j < n; ++j) { s += dA(i, j); sa += fabsl(dA(i, j)); } VF_CHECK(fabsl(s) <= tol_of<DT>(kap, std::max(sa, amax)), "scalar Burgers matrix without reaction: row sum " << i << " = " << (double)s); }
+            for(long i = 0; i < n; ++i) { LD s = 0, sa = 0; for(long j = 0; j < n; ++j) { s += dA(i, j); sa += fabsl(dA(i, j)); } VF_CHECK(fabsl(s) <= tol_of<DT>(kap, std::max(sa, amax)) + flo, "scalar Burgers matrix without reaction: row sum " << i << " = " << (double)s); }
           if(exact_ok)
           {
             PolyFunction<dim> fu(U[0]), fw(W[0]); SVector uh, wh; Assembly::Interpolator::project(uh, fu, space); Assembly::Interpolator::project(wh, fw, space);
             const std::vector<LD> us = flat_of(uh), ws = flat_of(wh);
             const LD ex = sc * integrate(qp, [&](const LD* x) { return burgers_scalar_integrand(p, dim, V, U[0], W[0], x); });
-            const LD got = bil(ws, dA, us); const LD tol = tol_of<DT>(kap, maxabs(us) * maxabs(ws) * SA);
+            const LD got = bil(ws, dA, us); const LD tol = tol_of<DT>(kap, maxabs(us) * maxabs(ws) * SA) + maxabs(us) * maxabs(ws) * flo;
             VF_CHECK(std::isfinite((double)got) && fabsl(got - ex) <= tol, "scalar Burgers matrix: w^T N(v) u = " << (double)got << " but the exact operator value is " << (double)ex << " (tol " << (double)tol << ")");
           }
         }
@@ -216,7 +227,7 @@ namespace c16
           std::vector<LD> v = flat_of(r), ss = flat_of(sol), ref((size_t)n, 0.0L); LD S = amax * maxabs(ss);
           for(auto& x : v) x *= sc;
           for(long i = 0; i < n; ++i) { LD sa = 0; for(long j = 0; j < n; ++j) { ref[(size_t)i] += dA(i, j) * ss[(size_t)j]; sa += fabsl(dA(i, j) * ss[(size_t)j]); } S = std::max(S, sa); }
-          for(long i = 0; i < n; ++i) VF_CHECK(std::isfinite((double)v[(size_t)i]) && fabsl(v[(size_t)i] - ref[(size_t)i]) <= tol_of<DT>(kap, S), "BurgersScalarVectorAssemblyJob entry " << i << ": " << (double)v[(size_t)i] << " vs matrix*sol " << (double)ref[(size_t)i]);
+          for(long i = 0; i < n; ++i) VF_CHECK(std::isfinite((double)v[(size_t)i]) && fabsl(v[(size_t)i] - ref[(size_t)i]) <= tol_of<DT>(kap, S) + flo * maxabs(ss), "BurgersScalarVectorAssemblyJob entry " << i << ": " << (double)v[(size_t)i] << " vs matrix*sol " << (double)ref[(size_t)i]);
         }
       }
     }
